@@ -171,3 +171,112 @@ sp = _Mod('scipy', _scipy, {'interpolate': sp_interpolate, 'integrate': sp_integ
 def shims():
     return {'scipy': sp, 'scipy.interpolate': sp_interpolate, 'scipy.integrate': sp_integrate, 'scipy.ndimage': sp_ndimage,
             'scipy.optimize': sp_optimize, 'scipy.signal': sp_signal}
+
+
+# ----------------------------------------------------------------------------- numpy.random by contract
+def _seed_key(seed):
+    if isinstance(seed, core.SNum):
+        return ('sym', seed.p.key())
+    return ('c', repr(seed))
+
+
+def draw(kind, seed, call, idx, sort='R', info=None, defs=None):
+    """The idx-th element of the call-th draw of `kind` from default_rng(seed): an uninterpreted value (one z3 variable
+    per (generator seed, call index, element index)); equal seeds give the same variable."""
+    v = core.mkvar(('draw', kind, _seed_key(seed), call, tuple(idx)), None, sort, 'draw', info or {})
+    if defs and not v.defs:
+        v.defs = defs(v.z)
+    c = core.CUR[0]
+    if c is not None:
+        c.ensure([v.id])
+    return core.SNum(core.Poly.var(v.id), sort == 'I')
+
+
+class Generator:
+    def __init__(self, seed):
+        self.seed = seed
+        self.calls = 0
+        c = core.CUR[0]
+        if seed is None and c is not None:
+            c.event('rng', 'default_rng() without a seed (OS entropy)')
+
+    def _shape(self, size, *args):
+        if size is not None:
+            if isinstance(size, (int, rnp.integer)):
+                return (int(size),)
+            return tuple(int(s) for s in size)
+        shp = ()
+        for a in args:
+            s = getattr(a, 'shape', ())
+            if isinstance(a, (list, tuple)):
+                s = rnp.shape(a)
+            shp = rnp.broadcast_shapes(shp, s)
+        return shp
+
+    def _arr(self, kind, shape, sort='R', info=None, defs=None):
+        call = self.calls
+        self.calls += 1
+        out = rnp.empty(shape, dtype=object)
+        for idx in rnp.ndindex(*shape):
+            out[idx] = draw(kind, self.seed, call, idx, sort, info, defs)
+        if shape == ():
+            return out[()]
+        r = out.view(arrays.SArr)
+        r.ldtype = 'int' if sort == 'I' else 'float'
+        return r
+
+    def standard_normal(self, size=None):
+        return self._arr('normal', self._shape(size))
+
+    def normal(self, loc=0.0, scale=1.0, size=None):
+        n0 = self._arr('normal', self._shape(size, loc, scale))
+        return loc + scale * n0
+
+    def poisson(self, lam=1.0, size=None):
+        L = to_sarr(lam) if is_sym(lam) else rnp.asarray(lam)
+        neg = False
+        for v in (L.flat if hasattr(L, 'flat') else [L]):
+            neg = arrays.e_or(neg, arrays._cmp('lt')(v, 0))
+        if neg is True or (neg is not False and bool(neg)):
+            raise ValueError('lam < 0 or lam is NaN')
+        big = False
+        for v in (L.flat if hasattr(L, 'flat') else [L]):
+            big = arrays.e_or(big, arrays._cmp('gt')(v, 9.223372006484771e+18))
+        if big is True or (big is not False and bool(big)):
+            raise ValueError('lam value too large')
+        return self._arr('poisson', self._shape(size, lam), 'I', {'nonneg': True}, lambda z: [z >= 0])
+
+    def lognormal(self, mean=0.0, sigma=1.0, size=None):
+        return self._arr('lognormal', self._shape(size, mean, sigma), 'R', {'pos': True}, lambda z: [z > 0])
+
+    def uniform(self, low=0.0, high=1.0, size=None):
+        u = self._arr('uniform', self._shape(size, low, high), 'R', {'nonneg': True}, lambda z: [z >= 0, z < 1])
+        return low + (high - low) * u
+
+
+class _Random(types.ModuleType):
+    """module-level numpy.random.*: every use of the global generator is logged as an event"""
+
+    def default_rng(self, seed=None):
+        return Generator(seed)
+
+    def __getattr__(self, n):
+        if n.startswith('__'):
+            raise AttributeError(n)
+        g = Generator(('global',))
+
+        def f(*a, **k):
+            c = core.CUR[0]
+            if c is not None:
+                c.event('rng', f'global numpy.random.{n}')
+            if n == 'rand':
+                return g.uniform(0.0, 1.0, size=a if a else None)
+            if n == 'seed':
+                return None
+            if hasattr(g, n):
+                return getattr(g, n)(*a, **k)
+            raise SymxUnsupported(f'numpy.random.{n}')
+        return f
+
+
+shim.random = _Random('numpy.random')
